@@ -1,5 +1,7 @@
+\* model checking and case generation in one run
 CONSTANTS
   Dev = {}
 SPECIFICATION Spec
+INVARIANT SpellingIrrelevant
 INVARIANT Emit
 CHECK_DEADLOCK FALSE
